@@ -8,6 +8,8 @@ from vmon.checks import tokcommon as tc
 from vmon.checks.common import obs, fail
 
 TRACK_CHANNELS = "pieces"   # worker: every fourth case moves each track's notes to another channel
+SCALE_EVERY = 17
+SCALE = True   # worker: every fortieth case (or SCALE_EVERY-th) is blown up by scale_case below
 PROP = "C02"
 MONITORS = ["tokenise"]
 EXHAUSTIVE = False
@@ -24,6 +26,16 @@ PLAN = {"quick": {"cases": 320, "jobs": 4, "timeout": 900},
 FLOORS = {"quick": {"c02.tokens_enumerated": 250000, "tokenise.closure.armed": 600, "#c02.flags.": 16, "c02.configurations": 280, "c02.sibling_configurations": 200},
           "thorough": {"c02.tokens_enumerated": 10000000, "#c02.flags.": 16}}
 
+
+def scale_case(case, i):
+    """numeric token fields with four and more digits: a high-resolution tokeniser (ppqn 480 / 960) with long note values and steps"""
+    q = [480, 960, 120][(i // 16) % 3]
+    cfg = case["cfg"]
+    cfg.update(ppqn=q, steps=[q // 8, q // 4, q // 2, q, 2 * q, 4 * q], values=[q // 4, q // 2, q, 2 * q, 4 * q, 6 * q],
+               pitch=[60, 63], bins=min(cfg["bins"], 4) if cfg["bins"] in (1, 2, 3, 4) else 1)
+    case["pieces"] = []          # (pieces are laid out for the library resolution; the vocabulary side is what is enumerated here)
+    case["sibling"] = None
+    case["stratum"] = "R"
 
 def make_case(rng, i, tier):
     irregular = (i % 8 == 7)
